@@ -30,8 +30,6 @@ def main():
             ctx.counters["shards_with_debug_logging"] += 1
             ctx.debug_logging = True
         m = importlib.import_module(f"rv.props.{prop.lower()}")
-        if spec.get("replay") is not None:
-            harness.OBJ_STATE["force"] = bool(spec.get("objective_fresh"))
         rng = random.Random(spec["seed"])
         if spec.get("replay") is not None:
             m.replay(spec["replay"], ctx)
